@@ -24,9 +24,11 @@ Definition gtab (off : Z) (l : list Q) (d : Q) : Z -> Q :=
 Definition rq_cost_def (g : Z -> Q) (K lam : Q) (r : Z) (n : nat) : Q :=
   (K * lam + zsum g (r + 1) n) / qnat n.
 
-(* the loop as written:  cost = K*lam; for y in range(r+1, r+Q+1): cost += g(y); cost /= Q *)
+(* the loop as written:  cost = K*lam; for y in range(r+1, r+Q+1): cost += g(y); cost /= Q
+   ([Qred] only normalises the fraction (same rational, Qred_correct): without it vm_compute carries the product of all
+   denominators through the sum) *)
 Fixpoint acc_loop (g : Z -> Q) (acc : Q) (y : Z) (n : nat) : Q :=
-  match n with O => acc | S n' => acc_loop g (acc + g y) (y + 1) n' end.
+  match n with O => acc | S n' => acc_loop g (Qred (acc + g y)) (y + 1) n' end.
 Definition rq_cost_poisson (g : Z -> Q) (K lam : Q) (r : Z) (n : nat) : Q :=
   acc_loop g (K * lam) (r + 1) n / qnat n.
 
